@@ -473,6 +473,7 @@ func ruleExitQueueReset(c *Ctx) {
 				c   types.Object
 				m   types.Object
 				pos token.Pos
+				ifs *ast.IfStmt
 			}
 			ast.Inspect(body, func(k ast.Node) bool {
 				if _, ok := k.(*ast.FuncLit); ok {
@@ -513,7 +514,8 @@ func ruleExitQueueReset(c *Ctx) {
 									c   types.Object
 									m   types.Object
 									pos token.Pos
-								}{info.Uses[cid], mobj, inc.Pos()})
+									ifs *ast.IfStmt
+								}{info.Uses[cid], mobj, inc.Pos(), ifs})
 							}
 						}
 					}
@@ -528,16 +530,44 @@ func ruleExitQueueReset(c *Ctx) {
 					n++
 					key := pkgShort(pk.Types) + "." + funcName(fd) + ":" + r.m.Name() + "/" + ct.c.Name()
 					reset := false
+					resetVal := int64(-1)
 					for _, st := range r.body.List {
 						if as, ok := st.(*ast.AssignStmt); ok && len(as.Lhs) == 1 && len(as.Rhs) == 1 {
 							if lid, ok := as.Lhs[0].(*ast.Ident); ok && info.Uses[lid] == ct.c {
 								if tv := info.Types[as.Rhs[0]]; tv.Value != nil {
+									if v, ok := constantInt(tv); ok {
+										resetVal = v
+									}
 									reset = true
 								}
 							}
 						}
 					}
-					if reset {
+					// after the element that raised the maximum has been handled, the count must be 1 (that element):
+					// either reset to 1 where the `== max` increment is not executed for this element (it is the other arm
+					// of the same if/else, or came earlier), or reset to 0 where the increment follows in the same iteration
+					incFollows := false
+					isElseArm := false
+					for e := ct.ifs.Else; e != nil; {
+						if ei, ok := e.(*ast.IfStmt); ok {
+							if ei == r.ifs {
+								isElseArm = true
+							}
+							e = ei.Else
+						} else {
+							break
+						}
+					}
+					if !isElseArm && ct.ifs.Pos() > r.ifs.End() {
+						incFollows = true
+					}
+					wantReset := int64(1)
+					if incFollows {
+						wantReset = 0
+					}
+					if reset && resetVal >= 0 && resetVal != wantReset {
+						c.bad(key, r.ifs.Pos(), "raising %s sets %s = %d, but the element that raised it is %s afterwards, so the count of the new maximum starts at %d instead of 1 (one exit too many, or too few, is scheduled into a full epoch)", r.m.Name(), ct.c.Name(), resetVal, map[bool]string{true: "counted by the `==` test that follows", false: "not counted again in this iteration"}[incFollows], resetVal+map[bool]int64{true: 1, false: 0}[incFollows])
+					} else if reset {
 						c.ok(key, r.ifs.Pos(), "raising %s re-initialises %s", r.m.Name(), ct.c.Name())
 					} else {
 						c.bad(key, r.ifs.Pos(), "%s is raised to a new maximum without re-initialising %s, which then also counts the elements of the earlier maximum (exit-queue churn over-counted when exits are queued over several epochs: ejections are pushed an epoch late)", r.m.Name(), ct.c.Name())
